@@ -85,6 +85,7 @@ def check(ctx):
     # the column layout a KROME file is decoded with is that file's own: directive state is reset before EVERY file (shared with C12.R4 / C17.R4)
     krome_reset(ctx, pkg, "R9")
     _r10(ctx, pkg)
+    _r11(ctx, pkg)
     # a reaction read from a file takes part in the equations: nothing filters reactions between the list and the ODE terms
     # (shared with C01.R2/R3)
 
@@ -125,6 +126,404 @@ def _r10(ctx, pkg):
         else:
             ctx.unrec("R10", "KROME:@format: column list", (KF, st[0].lineno), f"cannot see that the column list is the directive line minus `@format:`: {src[:80]}")
     ctx.floor("R10", "strip calls with a literal argument", n, 0)
+
+
+# ------------------------------------------------------------------ R11  the record a parser decodes is the caller's line, untouched
+
+# well-formed data lines of the six formats (the repository's own test data / bundled examples, plus multiply deuterated names)
+SAMPLES = [
+    ("kida", "C          CH                     H          C2                                            2.400e-10  0.000e+00  0.000e+00 2.00e+00 1.00e+02 logn  4     10    300  3  4894 1  1\n"),
+    ("kida", "C2D2       H+                     C2D2+      H                                             1.000e-09  0.000e+00  0.000e+00 2.00e+00 0.00e+00 logn  3     10    280  3   612 1  1\n"),
+    ("kida", "CH2D2      NH2D2+                 CH2D2+     NH2D2                                         4.670E-10  5.000E-01  3.040E+04 2.00e+00 0.00e+00 logn  4     10    800  3  6599 1  1\n"),
+    ("krome", "1,C,CH,,H,C2,,,,10,280,6.590e-11\n"),
+    ("krome", "2,H,C2D2,,C,CH2D2,,,,>1.d1,.LE.8d2,4.67e-10*(T32)**(-5.000e-01)*exp(-3.040e+04*invT)\n"),
+    ("leeds", " 4956 C         CH                  C2        H                                       6.59E-11     0.00       0.0    541000  1\n"),
+    ("leeds", "   12 GC2D2     GH                  GC2D3                                             1.00E+00     0.00       0.0    0    0 14\n"),
+    ("uclchem", "C,CH,NAN,C2,H,NAN,NAN,6.59e-11,0.0,0.0,10,300\n"),
+    ("uclchem", "#CH4,DESOH2,NAN,CH4,NAN,NAN,NAN,1.0,0.0,960.0,0.0,10000.0\n"),
+    ("uclchem", "#C2D2,THERM,NAN,C2D2,NAN,NAN,NAN,1.0,0.0,2587.0,0.0,10000.0\n"),
+    ("umist", '5173:NN:C:CH:C2:H:::1:6.59e-11:0.00:0.0:10:300:L:C:"10.1111/j.1365-2966.2004.07656.x"::\n'),
+    ("umist", "12:IN:C2D2:NH2D2+:C2D3+:NHD2:::1:1.00e-09:-0.50:0.0:10:41000:L:C:::\n"),
+    ("naunet", "1,C,CH,,C2,H,,,,6.59e-11,0.0,0.0,10.0,300.0,100,kida\n"),
+    ("naunet", "7,#CH4,,,CH4,,,,,1.0,0.0,960.0,-1.0,-1.0,201,uclchem\n"),
+    ("naunet", "8,C2D2,H+,,C2D2+,H,,,,1.0E-09,0.0,0.0,-1.0,-1.0,100,unknown\n"),
+]
+
+
+class _Unknown(Exception):
+    """the concrete evaluator met a construct it does not evaluate"""
+
+
+_STR_METHODS = {"strip", "lstrip", "rstrip", "startswith", "endswith", "upper", "lower", "casefold", "replace", "split", "rsplit", "splitlines", "isspace", "isdigit",
+                "isalpha", "isalnum", "find", "rfind", "index", "count", "partition", "rpartition", "removeprefix", "removesuffix", "expandtabs", "join", "translate",
+                "title", "swapcase", "capitalize", "ljust", "rjust", "center", "zfill", "format", "isupper", "islower", "__contains__", "__eq__", "__ne__", "__len__", "__getitem__"}
+_RE_METHODS = {"sub", "subn", "match", "search", "fullmatch", "findall", "split"}
+_MATCH_METHODS = {"group", "groups", "start", "end", "span"}
+_FUNCS = {"len": len, "str": str, "bool": bool, "tuple": tuple, "list": list, "any": any, "all": all, "repr": repr, "sorted": sorted, "set": set, "frozenset": frozenset,
+          "min": min, "max": max, "int": int, "float": float}
+
+
+def _ceval(v, env, consts=None):
+    """VALUE of the IR term `v` for concrete values of its free terms: env maps IR terms (("param", "line"), an ("elem", ..) ..) to python
+    values; `consts(term)` -> python value | raises _Unknown for ("global", name) / ("attr", self, name) terms.  Only pure operations on
+    strings / tuples / compiled regular expressions are evaluated; anything else raises _Unknown.  Used to exhibit a CONCRETE well-formed
+    line that a piece of code drops or rewrites (positive evidence), never to argue that code is right."""
+    E = lambda x: _ceval(x, env, consts)
+    if v in env:
+        return env[v]
+    if not isinstance(v, tuple) or not v:
+        raise _Unknown(repr(v))
+    k = v[0]
+    if k == "const":
+        return v[1]
+    if k in ("tuple", "list", "set"):
+        out = []
+        for e in v[1]:
+            if e[0] == "star":
+                out.extend(E(e[1]))
+            else:
+                out.append(E(e))
+        return tuple(out) if k == "tuple" else out if k == "list" else set(out)
+    if k == "unop":
+        x = E(v[2])
+        return (not x) if v[1] == "Not" else -x if v[1] == "USub" and isinstance(x, (int, float)) else (_ for _ in ()).throw(_Unknown(show(v)))
+    if k == "bool":
+        r = None
+        for x in v[2]:
+            r = E(x)
+            if (v[1] == "And" and not r) or (v[1] == "Or" and r):
+                return r
+        return r
+    if k in ("phi", "ifexp"):
+        return E(v[2]) if E(v[1]) else E(v[3])
+    if k == "cmp":
+        ops, xs = v[1], v[2]
+        left = E(xs[0])
+        for op, rx in zip(ops, xs[1:]):
+            right = E(rx)
+            try:
+                r = {"Eq": lambda: left == right, "NotEq": lambda: left != right, "In": lambda: left in right, "NotIn": lambda: left not in right,
+                     "Is": lambda: left is right or (left == right and right is None), "IsNot": lambda: not (left is right), "Lt": lambda: left < right, "LtE": lambda: left <= right,
+                     "Gt": lambda: left > right, "GtE": lambda: left >= right}[op]()
+            except (TypeError, KeyError):
+                raise _Unknown(show(v))
+            if not r:
+                return False
+            left = right
+        return True
+    if k == "sub":
+        base = E(v[1])
+        if v[2][0] == "slice":
+            lo, hi, st = (None if x == ("const", None) else E(x) for x in v[2][1:4])
+            idx = slice(lo, hi, st)
+        else:
+            idx = E(v[2])
+        if not isinstance(base, (str, tuple, list, dict)):
+            raise _Unknown(show(v))
+        try:
+            return base[idx]
+        except (IndexError, KeyError, TypeError):
+            raise _Unknown(show(v))
+    if k == "item" and isinstance(v[2], int):
+        base = E(v[1])
+        try:
+            return base[v[2]]
+        except Exception:
+            raise _Unknown(show(v))
+    if k == "binop" and v[1] in ("Add", "Mult", "Mod"):
+        a, b = E(v[2]), E(v[3])
+        if v[1] == "Add" and type(a) is type(b) and isinstance(a, (str, tuple, list, int)):
+            return a + b
+        raise _Unknown(show(v))
+    if k == "fstr":
+        out = ""
+        for p_ in v[1]:
+            if p_[0] == "const":
+                out += p_[1]
+            elif p_[0] == "fmt" and not p_[2] and not p_[3]:
+                out += format(E(p_[1]))
+            else:
+                raise _Unknown(show(v))
+        return out
+    if k == "call" and v[1][0] == "global" and not v[3]:
+        f = v[1][1]
+        if f == "isinstance" and len(v[2]) == 2:
+            x = E(v[2][0])
+            t = v[2][1]
+            if t[0] == "global" and t[1] in ("str", "tuple", "list"):
+                return isinstance(x, {"str": str, "tuple": tuple, "list": list}[t[1]])
+            if t[0] == "global" and t[1][:1].isupper() and isinstance(x, (str, tuple, list, type(None))):
+                return False            # a builtin value is not an instance of a class of the package
+            raise _Unknown(show(v))
+        if f in _FUNCS:
+            args = [E(a) for a in v[2]]
+            try:
+                return _FUNCS[f](*args)
+            except Exception:
+                raise _Unknown(show(v))
+        raise _Unknown(show(v))
+    if k == "meth":
+        name, args, kws = v[2], v[3], v[4]
+        if v[1] == ("global", "re") and name in _RE_METHODS | {"compile", "escape"} and not kws:
+            vals = [E(a) for a in args]
+            try:
+                return getattr(re, name)(*vals)
+            except Exception:
+                raise _Unknown(show(v))
+        obj = E(v[1])
+        vals = [E(a) for a in args]
+        kv = {k_: E(x) for k_, x in kws}
+        ok = (isinstance(obj, str) and name in _STR_METHODS) or (isinstance(obj, re.Pattern) and name in _RE_METHODS) or (isinstance(obj, re.Match) and name in _MATCH_METHODS) \
+            or (isinstance(obj, (tuple, list)) and name in ("index", "count", "__contains__")) or (isinstance(obj, dict) and name in ("get", "keys", "values", "items", "__contains__"))
+        if not ok:
+            raise _Unknown(show(v))
+        try:
+            return getattr(obj, name)(*vals, **kv)
+        except Exception:
+            raise _Unknown(show(v))
+    if k in ("global", "attr") and consts is not None:
+        return consts(v)
+    raise _Unknown(show(v))
+
+
+def _const_resolver(pkg, file, cls=None):
+    """python values of the names a function of `file` (a method of `cls`) reads: module-level literal tables / constants bound once and
+    never mutated (pymodel.module_tables), class-level constants incl. re.compile(<literals>) (pymodel.class_constants)"""
+    def lit(node):
+        if isinstance(node, ast.Call) and ast.unparse(node.func) == "re.compile" and not node.keywords:
+            try:
+                return re.compile(*[ast.literal_eval(a) for a in node.args])
+            except Exception:
+                raise _Unknown(ast.unparse(node))
+        try:
+            return ast.literal_eval(node)
+        except Exception:
+            raise _Unknown(ast.unparse(node)[:60])
+
+    def module_const(name):
+        tabs = pkg.module_tables(file)
+        if name in tabs:
+            return lit(tabs[name])
+        mod = pkg.modules.get(file)
+        binds = [st for st in (mod.body if mod else []) if isinstance(st, ast.Assign) and any(isinstance(t, ast.Name) and t.id == name for t in st.targets)]
+        stores = [x for x in ast.walk(mod) if isinstance(x, ast.Name) and x.id == name and isinstance(x.ctx, (ast.Store, ast.Del))] if mod else []
+        globs = [x for x in ast.walk(mod) if isinstance(x, ast.Global) and name in x.names] if mod else []
+        if len(binds) == 1 and len(stores) == 1 and not globs and len(binds[0].targets) == 1:
+            return lit(binds[0].value)
+        raise _Unknown(name)
+
+    def consts(t):
+        if t[0] == "global":
+            return module_const(t[1])
+        if t[0] == "attr" and cls is not None and (t[1] in (SELF, ("param", "cls")) or (t[1][0] == "global" and t[1][1] in pkg.mro(cls))):
+            cc = pkg.class_constants(cls)
+            if t[2] in cc:
+                return lit(cc[t[2]])
+        raise _Unknown(show(t))
+    return consts
+
+
+def _subst(v, m):
+    """IR term v with the sub-terms in m replaced"""
+    if v in m:
+        return m[v]
+    if isinstance(v, tuple):
+        return tuple(_subst(x, m) if isinstance(x, tuple) else x for x in v)
+    return v
+
+
+def _same_record(got, line):
+    """the text handed on is the line (the line terminator / trailing blanks aside, which no parser reads)"""
+    return isinstance(got, str) and got.rstrip() == line.rstrip() and (got[:1].isspace() == line[:1].isspace())
+
+
+def _r11(ctx, pkg):
+    """Identity flow from the file to the parser.  Every data line of a file reaches `_add_reaction` (nothing in the reading loop
+    skips lines by their text: data lines of UCLCHEM / native files begin with the surface prefix '#'), and the text each hop hands on
+    -- add_reaction_from_file -> _add_reaction -> _reaction_factory, <Format>.__init__ -> Reaction.__init__ -> _parse_string -- is the
+    text it was given (a rewrite of the WHOLE line also rewrites species names: `C2D2` looks like a Fortran double).  Decided by
+    evaluating the reconstructed guards / arguments on well-formed sample lines of every format (SAMPLES): a sample that is skipped or
+    comes out changed is a concrete counterexample; code the evaluator cannot follow is UNRECOGNISED, never a violation."""
+    from ..valueflow import strip_transparent
+    # ---- hop 1: the reading loop
+    pkg.method("Network", "add_reaction_from_file")
+    fn = pkg.folded("Network", "add_reaction_from_file")
+    ctx.saw(NET, "Network.add_reaction_from_file")
+    fl = Flow(fn, NET, resolver=lambda name: pkg.resolve("Network", name)[1] if name not in ("_add_reaction", "add_reaction") else None,
+              func_resolver=lambda name: pkg.functions.get((NET, name)) if name != "_reaction_factory" else None)
+    consts = _const_resolver(pkg, NET, "Network")
+    fmt_param = ("param", fn.args.args[2].arg) if len(fn.args.args) >= 3 else ("param", "format")
+    sites = []           # (argument IR, loops, guards, line)
+    seen = set()
+    cands = [(f.value, f.loops, f.guards, f.line) for f in fl.facts if f.value is not None] + [(v, loops, guards, line) for lst in fl.assigns.values() for v, loops, guards, line, seq in lst]
+    for val, loops, guards, line in cands:
+        for x in walk(simp(val)):
+            if isinstance(x, tuple) and len(x) == 5 and x[0] == "meth" and x[2] in ("_add_reaction", "add_reaction") and x[1] == SELF and loops and (x, line) not in seen:
+                seen.add((x, line))
+                sites.append((x, loops, guards, line))
+    key = "Network.add_reaction_from_file:every line is handed on"
+    if not sites:
+        ctx.unrec("R11", key, (NET, fn.lineno), "cannot find the call of self._add_reaction(..) inside the loop over the lines of the file")
+    else:
+        verdicts = []        # per sample: True (handed on unchanged), ("skipped" | "changed", detail), None (not decided)
+        for fmt, sample in SAMPLES:
+            res = None
+            for call, loops, guards, line in sites:
+                args = list(call[3]) + [v_ for _, v_ in call[4]]
+                elems = {x for a in args for x in walk(a) if isinstance(x, tuple) and len(x) == 3 and x[0] == "elem"}
+                if len(args) != 1 or len(elems) != 1:
+                    continue
+                el = next(iter(elems))
+                # a loop over a filtered / re-written sequence of lines is not read here
+                src = strip_transparent(simp(el[1]))
+                while src[0] == "call" and src[1] in (("global", "enumerate"), ("global", "iter"), ("global", "list"), ("global", "tuple")) and src[2]:
+                    src = strip_transparent(simp(src[2][0]))
+                if not (src[0] == "with" or (src[0] == "meth" and src[2] in ("readlines",) and not src[3]) or src[0] in ("param", "attr")):
+                    continue
+                env = {el: sample, fmt_param: fmt}
+                try:
+                    reached = True
+                    for g, pol in guards:
+                        g = simp(g)
+                        if not any(x == el for x in walk(g)):
+                            continue            # not a test of the line's text
+                        if bool(_ceval(g, env, consts)) != pol:
+                            reached = False
+                            why = show(_subst(g, {el: ("param", "line")}))[:100]
+                            break
+                    if not reached:
+                        res = res or ("skipped", why, line)
+                        continue
+                    got = _ceval(args[0], env, consts)
+                except _Unknown:
+                    res = None
+                    break
+                if isinstance(got, (tuple, list)) and len(got) == 2 and _same_record(got[0], sample) and got[1] == fmt:
+                    res = True
+                    break
+                res = ("changed", repr(got)[:100], line)
+            verdicts.append((fmt, sample, res))
+        wrong = [(f_, s_, r_) for f_, s_, r_ in verdicts if isinstance(r_, tuple)]
+        if wrong:
+            f_, s_, (what, detail, line) = wrong[0]
+            ctx.bad("R11", key, (NET, line),
+                    (f"the reading loop skips well-formed data lines by their text (test: {detail}): " if what == "skipped" else f"the reading loop hands on a rewritten line ({detail}): ")
+                    + f"the {f_} line {s_.strip()[:60]!r} adds no reaction / another reaction -- the network no longer has one reaction per data line",
+                    expected="self._add_reaction((line, format)) for every line", found=f"{len(wrong)} of {len(SAMPLES)} sample lines {what}")
+        elif any(r_ is None for _, _, r_ in verdicts):
+            ctx.unrec("R11", key, (NET, sites[0][3]), "cannot follow the tests / the argument between the line read from the file and self._add_reaction(..)")
+        else:
+            ctx.ok("R11", key, (NET, sites[0][3]), "every well-formed sample line of every format reaches self._add_reaction((line, format)) unchanged")
+    # ---- hop 2: _add_reaction -> _reaction_factory
+    pkg.method("Network", "_add_reaction")
+    afn = pkg.folded("Network", "_add_reaction")
+    afl = Flow(afn, NET)
+    rp = ("param", afn.args.args[1].arg) if len(afn.args.args) >= 2 else None
+    calls = {x for val in [f.value for f in afl.facts if f.value is not None] + [v for lst in afl.assigns.values() for v, *_ in lst] for x in walk(simp(val))
+             if isinstance(x, tuple) and len(x) == 4 and x[0] == "call" and x[1] == ("global", "_reaction_factory")}
+    key = "Network._add_reaction:the factory gets the caller's line"
+    if len(calls) != 1 or rp is None:
+        ctx.unrec("R11", key, (NET, afn.lineno), f"expected one call _reaction_factory(..) in _add_reaction, found {len(calls)}")
+    else:
+        call = next(iter(calls))
+        _hop(ctx, key, (NET, afn.lineno), lambda fmt, s: _factory_args(call, {rp: (s, fmt)}, _const_resolver(pkg, NET, "Network"), pkg), "_reaction_factory(*reaction)")
+    # ---- hop 3: _reaction_factory -> <Format>(react_string=..): what is constructed from is the pre-processing of the caller's line
+    ffn = pkg.func(NET, "_reaction_factory")
+    ffl = Flow(ffn, NET)
+    rs = ("param", ffn.args.args[0].arg) if ffn.args.args else None
+    made = set()
+    for f in ffl.facts:
+        if f.kind == "return" and f.value is not None:
+            for x in walk(simp(f.value)):
+                if isinstance(x, tuple) and len(x) == 4 and x[0] == "call" and (dict(x[3]).get("react_string") is not None or (len(x[2]) == 1 and not x[3] and any(y == ("global", "supported_reaction_class") for y in walk(x[1])))):
+                    made.add(dict(x[3]).get("react_string") or x[2][0])
+    key = "_reaction_factory:the parser gets the caller's line"
+    if len(made) != 1 or rs is None:
+        ctx.unrec("R11", key, (NET, ffn.lineno), f"expected one construction <Format>(react_string=..) in _reaction_factory, found {len(made)}")
+    else:
+        arg = simp(next(iter(made)))
+        # <cls>.preprocessing(x) of the formats that inherit it is x (R1 decides that); KROME's own keeps data lines stripped
+        pres = {x: x[3][0] for x in walk(arg) if isinstance(x, tuple) and len(x) == 5 and x[0] == "meth" and x[2] == "preprocessing" and len(x[3]) == 1 and not x[4]}
+        arg = _subst(arg, pres)
+        fc = _const_resolver(pkg, NET)
+        _hop(ctx, key, (NET, ffn.lineno), lambda fmt, s: _ceval(arg, {rs: s}, fc), "initializer(react_string=initializer.preprocessing(react_string))")
+    # ---- hop 4: <Format>.__init__ -> Reaction.__init__(react_string=..)
+    for cls in sorted(pkg.subclasses("Reaction")):
+        ci = pkg.cls(cls)
+        if "__init__" not in ci.methods or "_parse_string" not in ci.methods:
+            continue
+        ifn = pkg.folded(cls, "__init__")
+        ifl = Flow(ifn, ci.file, resolver=lambda name, c_=cls: pkg.resolve(c_, name)[1] if name not in ("_parse_string", "__init__") else None)
+        ps = [("param", a.arg) for a in ifn.args.args[1:]]
+        sup = [f.value for f in ifl.facts if f.kind == "call" and f.target == "__init__" and f.value[0] == "meth" and f.value[1][0] == "call" and f.value[1][1] == ("global", "super")]
+        key = f"{cls}.__init__:the base constructor gets the caller's line"
+        passed = [dict(c[4]).get("react_string") for c in sup]
+        if len(sup) != 1 or passed[0] is None or len(ps) != 1:
+            ctx.unrec("R11", key, (ci.file, ifn.lineno), "expected one call super().__init__(react_string=<the line>) in a constructor of one parameter")
+            continue
+        arg = simp(passed[0])
+        _hop(ctx, key, (ci.file, ifn.lineno), lambda fmt, s, a_=arg, p_=ps[0], c_=_const_resolver(pkg, ci.file, cls): _ceval(a_, {p_: s}, c_), "super().__init__(react_string=react_string)")
+    # ---- hop 5: Reaction.__init__ -> self._parse_string(..)
+    pkg.method("Reaction", "__init__")
+    bfn = pkg.folded("Reaction", "__init__", keep=KEEP + ("_parse_string",))
+    bfl = Flow(bfn, R, resolver=lambda name: pkg.resolve("Reaction", name)[1] if name not in ("_parse_string", "_create_species", "__init__") else None)
+    rsp = ("param", "react_string")
+    calls = [f for f in bfl.facts if f.kind == "call" and f.target == "_parse_string" and f.value[0] == "meth" and f.value[1] == SELF]
+    key = "Reaction.__init__:_parse_string gets the caller's line"
+    if len(calls) != 1 or len(calls[0].value[3]) + len(calls[0].value[4]) != 1 or not any(a.arg == "react_string" for a in bfn.args.args):
+        ctx.unrec("R11", key, (R, bfn.lineno), f"expected one call self._parse_string(<the line>) in Reaction.__init__, found {len(calls)}")
+    else:
+        c = calls[0]
+        arg = simp((list(c.value[3]) + [v_ for _, v_ in c.value[4]])[0])
+        unread = [g for g, _ in c.guards if any(x == rsp for x in walk(simp(g)))]
+        bc = _const_resolver(pkg, R, "Reaction")
+
+        def through(fmt, s):
+            for g, pol in c.guards:
+                if any(x == rsp for x in walk(simp(g))) and bool(_ceval(simp(g), {rsp: s}, bc)) != pol:
+                    return None            # the line is not parsed at all
+            return _ceval(arg, {rsp: s}, bc)
+        _hop(ctx, key, (R, c.line), through, "self._parse_string(react_string)")
+
+
+def _factory_args(call, env, consts, pkg):
+    vals = []
+    for a in call[2]:
+        if a[0] == "star":
+            vals.extend(_ceval(a[1], env, consts))
+        else:
+            vals.append(_ceval(a, env, consts))
+    kw = {k_: _ceval(v_, env, consts) for k_, v_ in call[3]}
+    fac = pkg.func(NET, "_reaction_factory")
+    names = [a.arg for a in fac.args.args]
+    for n_, v_ in zip(names, vals):
+        kw[n_] = v_
+    return kw.get(names[0]) if names else None
+
+
+def _hop(ctx, key, where, through, expected):
+    """`through(format, line)` is the text one hop hands on for a sample line: it must be the line"""
+    wrong, unknown = [], 0
+    for fmt, s in SAMPLES:
+        try:
+            got = through(fmt, s)
+        except _Unknown:
+            unknown += 1
+            continue
+        if not _same_record(got, s):
+            wrong.append((fmt, s, got))
+    if wrong:
+        fmt, s, got = wrong[0]
+        diff = next((i for i, (a, b) in enumerate(zip(s, got)) if a != b), min(len(s), len(got))) if isinstance(got, str) else 0
+        ctx.bad("R11", key, where,
+                f"the text handed on is not the text received: the well-formed {fmt} line {s.strip()[:50]!r} arrives as "
+                + (f"..{got[max(0, diff - 12):diff + 12]!r}.. instead of ..{s[max(0, diff - 12):diff + 12]!r}.." if isinstance(got, str) else repr(got)[:60])
+                + " -- a rewrite applied to the whole record also rewrites the species columns (the reaction names other reactants / products)",
+                expected=expected, found=f"{len(wrong)} of {len(SAMPLES)} sample lines changed")
+    elif unknown:
+        ctx.unrec("R11", key, where, "cannot follow what is computed from the line before it is handed on")
+    else:
+        ctx.ok("R11", key, where, "every sample line is handed on as it was received")
 
 
 # ------------------------------------------------------------------ R1
@@ -1062,4 +1461,23 @@ BENIGN += [
     {"name": "uclchem-record-negative-slices", "file": UC, "old": _UC_REC, "new": '            rec = react_string.split(",")\n            rpspec = rec[:-5]\n            a, b, c, lt, ut = rec[-5:]\n'},
     {"name": "leeds-class-table-of-slices", "edits": _le_slices()},
     {"name": "kida-tail-indexed", "edits": _ki_indexed()},
+]
+
+# ---- wave 3: identity flow from the file to the parser (R11)
+_LOOP_TRY = "                try:\n                    reac, prod, reactinst = self._add_reaction((line, format))\n"
+MUTANTS += [
+    {"name": "reading-loop-skips-hash-and-bang-lines", "file": NET, "old": _LOOP_TRY,
+     "new": '                if line.lstrip().startswith(("#", "!")):\n                    continue\n' + _LOOP_TRY, "rules": ["R11"]},
+    {"name": "reading-loop-strips-leading-blanks", "file": NET, "old": "self._add_reaction((line, format))", "new": "self._add_reaction((line.strip(), format))", "rules": ["R11"]},
+    {"name": "base-constructor-rewrites-fortran-exponents-in-whole-line", "edits": [
+        {"file": R, "old": "from __future__ import annotations\n", "new": "from __future__ import annotations\nimport re\n"},
+        {"file": R, "old": "        self._parse_string(react_string)\n",
+         "new": '        self._parse_string(re.sub(r"(\\d\\.?)[dD]([+-]?\\d)", r"\\1e\\2", react_string) if react_string else react_string)\n'}], "rules": ["R11"]},
+    {"name": "uclchem-constructor-drops-surface-marker", "file": UC, "old": "super().__init__(react_string=react_string)", "new": 'super().__init__(react_string=react_string.lstrip("#"))', "rules": ["R11"]},
+]
+BENIGN += [
+    {"name": "reading-loop-skips-blank-lines-early", "file": NET, "old": _LOOP_TRY, "new": "                if not line.strip():\n                    continue\n" + _LOOP_TRY},
+    {"name": "reading-loop-skips-krome-comments-early", "file": NET, "old": _LOOP_TRY,
+     "new": '                if format == "krome" and line.startswith("#"):\n                    continue\n' + _LOOP_TRY},
+    {"name": "base-constructor-names-the-line-first", "file": R, "old": "        self._parse_string(react_string)\n", "new": "        record = react_string\n        self._parse_string(record)\n"},
 ]
